@@ -183,6 +183,75 @@ func (m *Monitor) doRespConnBind(r *mReq, msg *stun.Message, ok bool, code int, 
 	m.K.Stats.Probe("tcp_bind_ok")
 }
 
+func finSeen(c *TCPConn) bool {
+	if c == nil {
+		return false
+	}
+	c.mu.Lock()
+	defer c.mu.Unlock()
+	return c.in.finArrived || c.in.rst
+}
+
+// relayPeerConnClosed: the server closes its end of a peer connection. Once the connection is
+// bound it is a pipe that lasts "until either side closes": with the allocation alive, the
+// server running, no injected socket error and no FIN or RST from the peer or from the
+// client's data connection, the server has no reason to close it (a bind timer that fires
+// although the connection was bound in time does exactly that).
+func (m *Monitor) relayPeerConnClosed(c *TCPConn) {
+	now := m.K.Now()
+	m.mu.Lock()
+	defer m.mu.Unlock()
+	if m.serverClosed || len(m.P.IOFaults) > 0 {
+		return
+	}
+	for _, as := range m.M.Allocs {
+		for _, a := range as {
+			for cid, t := range a.TCPs {
+				if t.Conn != c || !t.Bound {
+					continue
+				}
+				if _, ended := m.ctlEnded[a.Client]; ended {
+					return
+				}
+				if finSeen(c) || finSeen(m.dataConns[cid]) {
+					return
+				}
+				if d := m.dataConns[cid]; d != nil {
+					d.mu.Lock()
+					dclosed := d.closed
+					d.mu.Unlock()
+					if dclosed {
+						return // the data connection went first (its own reason is judged elsewhere)
+					}
+				}
+				// whether the allocation was alive is judged at the next idle point: the request
+				// that ends it (Refresh 0) is answered only after its connections are closed
+				m.pipeClosed = append(m.pipeClosed, pipeClose{a, t, cid, now})
+				return
+			}
+		}
+	}
+}
+
+type pipeClose struct {
+	a   *mAlloc
+	t   *mTCP
+	cid uint32
+	at  int64
+}
+
+func (m *Monitor) judgePipeClosed() {
+	for _, pc := range m.pipeClosed {
+		if _, ended := m.ctlEnded[pc.a.Client]; ended || !m.M.DefinitelyAlive(pc.a, pc.at, pc.at) {
+			continue
+		}
+		m.v([]string{"C16"}, "pipe-closed-unprompted", nil,
+			"the server closed bound connection %d (%s, bound at %d, made at %d) at %d although the allocation is alive and neither the peer nor the client's data connection had closed",
+			pc.cid, pc.t.Peer, pc.t.BoundAt.Hi, pc.t.Created.Lo, pc.at)
+	}
+	m.pipeClosed = nil
+}
+
 func (t *mTCP) peerGone() bool {
 	if t.Conn == nil {
 		return false
@@ -194,6 +263,7 @@ func (t *mTCP) peerGone() bool {
 
 // tcpIdle: unbound connections must be closed by the server 30 s after they were made.
 func (m *Monitor) tcpIdle(now int64) {
+	m.judgePipeClosed()
 	for _, as := range m.M.Allocs {
 		for _, a := range as {
 			for _, t := range a.TCPs {
